@@ -258,6 +258,13 @@ def eval_expr(c, val):
             return None
         return int({'==': a == b, '!=': a != b, '<': a < b, '>': a > b, '<=': a <= b, '>=': a >= b,
                     '&': a & b, '|': a | b, '+': a + b, '-': a - b}[c['op']])
+    if k == 'bin' and c['op'] in ('*', '<<'):
+        a, b = eval_expr(c['l'], val), eval_expr(c['r'], val)
+        if a is None or b is None:
+            return None
+        return a * b if c['op'] == '*' else a << b
+    if k in ('paren', 'cast'):
+        return eval_expr(c['e'], val)
     if k == 'cond':
         t = eval_expr(c['c'], val)
         if t is None:
@@ -268,14 +275,14 @@ def eval_expr(c, val):
     return None
 
 
-def symbolic_walk(fn, start, val, stop, max_steps=400, unknown=None):
+def symbolic_walk(fn, start, val, stop, max_steps=400, unknown=None, env_out=None):
     """Follow the single path from block `start` that the assignment `val`
     (expr -> int|None for leaves) selects.  Local assignments of evaluable values
     are remembered.  stop(block, event|None) -> label ends the walk.  Returns
     (list of events seen, stop label).  Raises AnalysisBroken when a branch
     condition cannot be evaluated."""
     from .cfg import written_lvalues, is_ref, estr
-    env = {}
+    env = {} if env_out is None else env_out
 
     def v2(e):
         r = val(e)
@@ -303,6 +310,15 @@ def symbolic_walk(fn, start, val, stop, max_steps=400, unknown=None):
                         env[lhs['id']] = x
                     else:
                         env.pop(lhs['id'], None)
+                elif is_ref(lhs) and lhs.get('kind') == 'local' and how in ('|=', '&=', '+=', '-=') and rhs is not None:
+                    x = eval_expr(rhs, v2)
+                    if x is not None and lhs['id'] in env:
+                        a = env[lhs['id']]
+                        env[lhs['id']] = {'|=': a | x, '&=': a & x, '+=': a + x, '-=': a - x}[how]
+                    else:
+                        env.pop(lhs['id'], None)
+                elif is_ref(lhs) and lhs.get('kind') == 'local' and 'id' in lhs:
+                    env.pop(lhs['id'], None)
             if ev['ev'] == 'return':
                 return seen, 'return'
         t = blk.get('term')
@@ -324,6 +340,30 @@ def symbolic_walk(fn, start, val, stop, max_steps=400, unknown=None):
         if b < 0:
             return seen, 'pruned'
     raise AnalysisBroken('%s: symbolic walk did not terminate' % fn.name)
+
+
+def const_call_value(prog, frm, call, depth=0):
+    """Value of a call whose arguments are constants, when the callee is straight enough to follow: its one path under
+    those arguments is walked (locals, compound assignments) and the returned expression evaluated.  None = no verdict."""
+    from .cfg import is_ref
+    if call.get('k') != 'call' or not call.get('callee'):
+        return None
+    gs = prog.resolve_all(call['callee'], frm)
+    if len(gs) != 1 or len(gs[0].params) != len(call['args']):
+        return None
+    g = gs[0]
+    vals = [eval_expr(a, lambda e: None) for a in call['args']]
+    if any(v is None for v in vals):
+        return None
+    env = {p['id']: v for p, v in zip(g.params, vals)}
+    try:
+        seen, lab = symbolic_walk(g, g.entry, lambda e: env.get(e.get('id')) if is_ref(e) and e.get('kind') == 'param' else None,
+                                  lambda blk, ev: None, env_out=env)
+    except AnalysisBroken:
+        return None
+    if lab != 'return' or not seen or seen[-1]['ev'] != 'return' or seen[-1].get('e') is None:
+        return None
+    return eval_expr(seen[-1]['e'], lambda e: env.get(e.get('id')) if is_ref(e) else None)
 
 
 def bool_definitions(fn, name):
@@ -484,3 +524,117 @@ def shared_rule(ck, prog, rid, title, kind, breaks, floor, fn, *args):
     finally:
         ck.rule = save
     return r
+
+
+CURSOR_TESTS = {'_dbus_type_reader_get_current_type': ('_dbus_type_reader_next', '_dbus_type_reader_delete'),
+                'dbus_message_iter_get_arg_type': ('dbus_message_iter_next',)}
+
+
+# the cursor API's own queries: they read where the cursor is and leave it there
+CURSOR_READERS = {(n, 0) for n in (
+    '_dbus_type_reader_recurse', '_dbus_type_reader_read_basic', '_dbus_type_reader_get_current_type',
+    '_dbus_type_reader_get_element_type', '_dbus_type_reader_read_fixed_multi', '_dbus_type_reader_get_value_pos',
+    '_dbus_type_reader_read_raw', '_dbus_type_reader_get_array_length', '_dbus_type_reader_get_signature',
+    '_dbus_type_reader_has_next', '_dbus_type_reader_greater_than',
+    'dbus_message_iter_recurse', 'dbus_message_iter_get_basic', 'dbus_message_iter_get_arg_type',
+    'dbus_message_iter_get_element_type', 'dbus_message_iter_get_fixed_array', 'dbus_message_iter_get_signature',
+    'dbus_message_iter_get_element_count', 'dbus_message_iter_has_next', 'dbus_message_iter_get_array_len')}
+
+
+def _may_advance(prog, frm, callee, ai, adv, depth):
+    """May the callee move the cursor it receives as argument ai?  Unknown code may; code we can read does when it
+    hands its parameter to an advancing call (followed two levels down)."""
+    from .cfg import is_ref
+    if callee is None:
+        return True
+    if (callee, ai) in CURSOR_READERS:
+        return False
+    gs = prog.resolve_all(callee, frm)
+    if not gs:
+        return not (callee.startswith('_dbus_type_reader_') or callee.startswith('dbus_message_iter_'))
+    for g in gs:
+        if ai >= len(g.params):
+            return True
+        pid = g.params[ai]['id']
+        for b, i, c in g.calls():
+            for aj, a in enumerate(c['args']):
+                if is_ref(a) and a.get('id') == pid:
+                    if c.get('callee') in adv and aj == 0:
+                        return True
+                    if depth < 2 and c.get('callee') != g.name and _may_advance(prog, g, c.get('callee'), aj, adv, depth + 1):
+                        return True
+        for b, i, ev in g.events():
+            from .cfg import written_lvalues
+            for lhs, how, rhs in written_lvalues(ev):
+                if lhs.get('k') == 'un' and lhs['op'] == '*' and is_ref(lhs['e']) and lhs['e'].get('id') == pid:
+                    return True
+    return False
+
+
+def cursor_loops_advance(prog, rule, files, floor=1):
+    """Every loop that runs `while the value cursor R is not at the end` moves R on each way round: every cycle
+    through the loop's header passes a call that advances R (or R is written).  A way round without the advance sees
+    the same element again and again: the loop never ends."""
+    from .cfg import strip_addr, written_lvalues, is_ref, estr
+
+    def cursor_key(e):
+        e = strip_addr(e)
+        while e is not None and e.get('k') in ('paren', 'cast'):
+            e = e['e']
+        if e is None:
+            return None
+        return ('id', e['id']) if is_ref(e) and 'id' in e else ('expr', estr(e))
+    n = 0
+    for f in prog.funcs.values():
+        if f.file not in files or not prog.is_production(f):
+            continue
+        loops = {}
+        for h, body in natural_loops(f):
+            loops.setdefault(h, set()).update(body)
+        for h, body in loops.items():
+            # the loop's test: a cursor query in the header block (or in the blocks of its condition)
+            test = None
+            for ev in f.blocks[h]['events']:
+                if ev['ev'] == 'call' and ev['e'].get('callee') in CURSOR_TESTS and ev['e']['args']:
+                    test = ev['e']
+            if test is None:
+                continue
+            cur = cursor_key(test['args'][0])
+            adv = CURSOR_TESTS[test['callee']]
+            moving = set()
+            for b in body:
+                for ev in f.blocks[b]['events']:
+                    if ev['ev'] == 'call' and ev['e'].get('callee') in adv and ev['e']['args'] \
+                            and cursor_key(ev['e']['args'][0]) == cur:
+                        moving.add(b)
+                    if ev['ev'] == 'call' and ev['e'].get('callee') not in adv and b != h:
+                        for ai, a in enumerate(ev['e']['args']):
+                            if cursor_key(a) == cur and a.get('k') == 'un' and _may_advance(prog, f, ev['e'].get('callee'), ai, adv, 0):
+                                moving.add(b)
+                    for lhs, how, rhs in written_lvalues(ev):
+                        if cursor_key(lhs) == cur and how != '&arg' and b != h:
+                            moving.add(b)
+            n += 1
+            key = '%s:loop@%s:%s' % (f.name, estr(test['args'][0]), test['callee'])
+            # a cycle that avoids every moving block?
+            seen, todo, bad = set(), [s for s in f.blocks[h]['succs'] if s in body], None
+            while todo:
+                b = todo.pop()
+                if b is None or b in seen or b not in body or b in moving:
+                    continue
+                if b == h:
+                    bad = True
+                    break
+                seen.add(b)
+                todo += f.blocks[b]['succs']
+            if bad:
+                lines = sorted(ev['line'] for b in seen for ev in f.blocks[b]['events'])
+                rule.violation(key, f.name, f.file, test['line'],
+                               'the loop over %s can go round without advancing it (through line%s %s): it then looks at '
+                               'the same element forever' % (estr(test['args'][0]), 's' if len(lines) > 1 else '',
+                                                            ', '.join(map(str, lines[:6])) or '?'))
+            else:
+                rule.ok(key, {'advances': len(moving)})
+    if n < floor:
+        raise AnalysisBroken('only %d cursor loops found in %s' % (n, ', '.join(sorted(files))))
+    return n
